@@ -1448,3 +1448,76 @@ def r_fixed_time(cx):
     if n == 0:
         cx.ob("R-FIXED-TIME", "new/fixed_time", False, "anchor-missing: helmert::new never sets fixed_time", cx.where(f.d["span"]))
     cx.count("R-FIXED-TIME", "inserts", n)
+
+
+@rule("R-PPM-ONCE", ["C07"])
+def r_ppm_once(cx):
+    """helmert's scale and scale rate are given in parts per million (per year) under either spelling (`s` / `scale`,
+    `ds` / `scale_trend`): on the way from each of these parameters to the stored `S` / `DS` the value is multiplied by
+    1e-6 exactly once - whichever spelling was used. A conversion added to one spelling on top of the common one makes
+    a rate given as `ds` a million times too small."""
+    name = "inner_op::helmert::new"
+    if not cx.f.has_fn(name):
+        cx.ob("R-PPM-ONCE", "anchor", False, "anchor-missing: %s" % name)
+        return
+    f = cx.f.fn(name)
+    keys = ("s", "scale", "ds", "scale_trend")
+
+    def paths(t, depth=0, seen=None):
+        """{(key, number of 1e-6 factors on the way up)}"""
+        t = mir.strip_refs(t)
+        if depth > 40:
+            return set()
+        if t[0] == "call" and isinstance(t[1], str) and t[1].startswith(K.PP + "::") and len(t[2]) > 1 and K._const_key(t[2][1]) in keys:
+            return {(K._const_key(t[2][1]), 0)}
+        out = set()
+        if t[0] == "bin" and t[1] == "Mul":
+            for a, b in ((t[2], t[3]), (t[3], t[2])):
+                nb = _num_const(mir.strip_refs(b))
+                if nb is not None and abs(nb - 1e-6) < 1e-18:
+                    return {(k, c + 1) for k, c in paths(a, depth + 1)}
+        if t[0] == "loopphi":
+            d = f.phi_def(t)
+            if d is not None and d[0] == "phi" and depth < 30:
+                for o in d[2]:
+                    if o != t:
+                        out |= paths(o, depth + 8)
+            return out
+        for ch in (t[2] if t[0] in ("phi", "call", "agg") and isinstance(t[2], tuple) else
+                   (t[2], t[3]) if t[0] == "bin" else (t[1],) if t[0] in ("proj",) else (t[2],) if t[0] in ("un", "cast") else ()):
+            if isinstance(ch, tuple):
+                out |= paths(ch, depth + 1)
+        return out
+    n = 0
+    for bb, t in f.calls():
+        if not ((f.callee(t) or "").endswith("BTreeMap::<K, V, A>::insert") and len(f.arg_terms(bb)) > 2):
+            continue
+        key = K._const_key(f.arg_terms(bb)[1])
+        if key not in ("S", "DS"):
+            continue
+        ps = paths(f.arg_terms(bb)[2])
+        want = ("s", "scale") if key == "S" else ("ds", "scale_trend")
+        for k in want:
+            cs = sorted({c for kk, c in ps if kk == k})
+            if not cs:
+                continue
+            n += 1
+            cx.ob("R-PPM-ONCE", "new/%s/%s" % (key, k), cs == [1],
+                  "`%s` reaches the stored %s through exactly one factor 1e-6" % (k, key) if cs == [1] else
+                  "`%s` reaches the stored %s through %s factors 1e-6 (the ppm conversion is applied %s): the two spellings of "
+                  "the parameter no longer mean the same" % (k, key, cs, "more than once" if max(cs) > 1 else "not at all"),
+                  cx.where(t["span"]))
+    cx.count("R-PPM-ONCE", "parameter_paths", n)
+
+
+def _num_const(t):
+    if t[0] == "const":
+        v = t[2]
+        if isinstance(v, tuple) and v and v[0] == "float":
+            try:
+                return float(v[1])
+            except Exception:
+                return None
+        if isinstance(v, (int, float)) and not isinstance(v, bool):
+            return float(v)
+    return None
